@@ -107,6 +107,9 @@ inductive Op where
   | popCrop                  -- `crop_to_shape(x, top.shape)`
   | popCropSame              -- `crop_to_shape(x, top.shape)` then `+` / `cat` with `top`
   | popSame                  -- `+` / `cat` with `top`
+  | padTop                   -- reflect-pad by one where the current shape differs from `top` (keeps `top`)
+  | cropTop                  -- `crop_to_shape(x, top.shape)` (keeps `top`)
+  | pop                      -- forget `top`
   | pad16                    -- `NormUnetModel*.pad` (remembers the un-padded shape)
   | unpad16
   | padPow2 (k : Nat)        -- `pad_to_pow_of_2`
@@ -156,7 +159,25 @@ def step (op : Op) (st : State) : Except Err State :=
     match st.stack with
     | [] => .error .runtime
     | t :: rest =>
-      if List.zipWith cropTo t st.cur = t then .ok { st with cur := t, stack := rest } else .error .runtime
+      if t.length = st.cur.length ∧ List.zipWith cropTo t st.cur = t then .ok { st with cur := t, stack := rest }
+      else .error .runtime
+  | .padTop =>
+    match st.stack with
+    | [] => .error .runtime
+    | t :: _ =>
+      let pads := List.zipWith upPad t st.cur
+      if t.length = st.cur.length ∧ (List.zipWith (fun p n => reflectOk 0 p n) pads st.cur).all id then
+        .ok { st with cur := List.zipWith (· + ·) st.cur pads }
+      else .error .runtime
+  | .cropTop =>
+    match st.stack with
+    | [] => .error .runtime
+    | t :: _ =>
+      if t.length = st.cur.length then .ok { st with cur := List.zipWith cropTo t st.cur } else .error .runtime
+  | .pop =>
+    match st.stack with
+    | [] => .error .runtime
+    | _ :: rest => .ok { st with stack := rest }
   | .popSame =>
     match st.stack with
     | [] => .error .runtime
@@ -179,6 +200,16 @@ def run : List Op → State → Except Err State
     match step op st with
     | .ok st' => run ops st'
     | .error e => .error e
+
+/-- the composite stack operations in terms of the fine ones (this is the vocabulary the translator emits: one
+operation per source statement, so that re-ordering `pad` and `cat`, or dropping a crop, changes the program) -/
+def expand1 : Op → List Op
+  | .popPadCat => [.padTop, .popSame]
+  | .popCropSame => [.cropTop, .popSame]
+  | .popCrop => [.cropTop, .pop]
+  | o => [o]
+
+def expand (p : List Op) : List Op := p.flatMap expand1
 
 /-! ## hyper-parameters (read from the instantiated modules by the harness) -/
 
@@ -206,8 +237,12 @@ def unetLv (P : UnetP) : Nat → List Op
     convBlock P ++ [.emit, .push, .avgPool P.pk P.ps] ++ unetLv P L ++
       [.convT P.tk P.ts 0, .instNorm, .emit, .popPadCat] ++ convBlock P ++ [.emit]
 
-/-- the last `up_conv` ends with a 1×1 convolution (inside the hooked `Sequential`) -/
-def unet (P : UnetP) (L : Nat) : List Op := unetLv P L ++ [.conv 1 1 0 1]
+/-- the whole U-Net: the last `up_conv` is `Sequential(ConvBlock, Conv2d(1×1))`, hooked as one block -/
+def unet (P : UnetP) : Nat → List Op
+  | 0 => unetLv P 0
+  | L + 1 =>
+    convBlock P ++ [.emit, .push, .avgPool P.pk P.ps] ++ unetLv P L ++
+      [.convT P.tk P.ts 0, .instNorm, .emit, .popPadCat] ++ convBlock P ++ [.conv 1 1 0 1, .emit]
 
 /-- `NormUnetModel2d.forward`: (norm,) pad, U-Net (hook on `unet2d`), unpad, (unnorm). -/
 def normUnet (P : UnetP) (L : Nat) : List Op := [.pad16] ++ unet P L ++ [.emit, .unpad16]
@@ -290,17 +325,19 @@ def reconBlocks (P : DidnP) (nconv : Nat) : Nat → List Op
   | n + 1 => (List.replicate nconv (Op.conv P.ck 1 P.cp 1)) ++ [.emit] ++ reconBlocks P nconv n
 
 /-- `DIDN.forward`; hooks: `conv_in`, `down`, `dubs[i]`, `recon_block` (once per DUB output), `recon_agg`,
-`conv`, `up2`, `conv_out`. `skip` adds `x + out` (shapes must agree). -/
+`conv`, `up2`, `conv_out`. `skip` adds `x + out` after the crop (shapes must agree). -/
 def didn (P : DidnP) (ndubs nconv : Nat) (skip : Bool) : List Op :=
-  [.push] ++ (if skip then [.push] else []) ++
+  [.push] ++
   [.conv P.ck 1 P.cp 1, .emit, .conv P.dk P.ds P.dp 1, .emit] ++ dubs P ndubs ++ reconBlocks P nconv ndubs ++
   [.conv 1 1 0 1, .emit, .conv P.ck 1 P.cp 1, .emit, .conv 1 1 0 1, .scale P.r, .emit, .conv P.ck 1 P.cp 1, .emit,
-   .popCrop] ++ (if skip then [.popSame] else [])
+   if skip then .popCropSame else .popCrop]
 
-/-- `ResNet.forward`: `conv_out(conv_in(x) + resblocks(conv_in(x)))`; hooks `conv_in` (twice), `resblocks`, `conv_out`. -/
+/-- `ResNet.forward`: `conv_out(conv_in(x) + resblocks(conv_in(x)))`; hooks `conv_in` (twice), `resblocks`, `conv_out`.
+All convolutions are stride-1 with compensating padding, so the two summands have the input's shape by construction (the
+translator tracks such offsets and emits no stack operation). -/
 def resnet (k p nblocks : Nat) : List Op :=
-  [.push, .conv k 1 p 1, .emit, .swap, .conv k 1 p 1, .emit] ++
-  (List.replicate (2 * nblocks) (Op.conv k 1 p 1)) ++ [.emit, .popSame, .conv k 1 p 1, .conv 1 1 0 1, .emit]
+  [.conv k 1 p 1, .emit, .conv k 1 p 1, .emit] ++
+  (List.replicate (2 * nblocks) (Op.conv k 1 p 1)) ++ [.emit, .conv k 1 p 1, .conv 1 1 0 1, .emit]
 
 /-- `direct.nn.conv.Conv2d`: `n` convolutions, hook on every child of the `Sequential` (conv, optional batch norm,
 activation except after the last). -/
@@ -330,15 +367,20 @@ def gruLayersPinned : Nat → List Op
 /-- the pinned zero-padding cell (no instance norm) -/
 def gruPinned (layers : Nat) : List Op := [.push] ++ gruLayersPinned layers ++ gruBlockPinned layers ++ [.emit]
 
-/-- layers `0 … m−1`: block, hook, `cat` with the recurrent state (which has the input's spatial shape, remembered on
-the stack: `popSame, push` compares without forgetting), optional `InstanceNorm2d` inside the gates. -/
+/-- one GRU gate (`update_gates[idx]`, `reset_gates[idx]`, `out_gates[idx]`): optional `InstanceNorm2d`, then a
+`gru_kernel_size = 1` convolution -/
+def gruGate (inorm : Bool) : List Op := (if inorm then [.instNorm] else []) ++ [.conv 1 1 0 1]
+
+/-- layers `0 … m−1`: conv block (hooked), then the three gates on `cat([cell_input, state])`.  The recurrent state has
+the input's spatial shape and the blocks preserve it by construction (padding compensates the dilated kernel), so no
+shape has to be remembered. -/
 def gruLayers (repl inorm : Bool) : Nat → List Op
   | 0 => []
-  | m + 1 => gruLayers repl inorm m ++ gruBlock repl m ++ [.emit, .popSame, .push] ++ (if inorm then [.instNorm] else [])
+  | m + 1 => gruLayers repl inorm m ++ gruBlock repl m ++ [.emit] ++ gruGate inorm ++ gruGate inorm ++ gruGate inorm
 
-/-- hooks: `conv_blocks[idx]`.  The remembered input shape stays on the stack at the end. -/
+/-- hooks: `conv_blocks[idx]` -/
 def gru (repl inorm : Bool) (layers : Nat) : List Op :=
-  [.push] ++ gruLayers repl inorm layers ++ gruBlock repl layers ++ [.emit]
+  gruLayers repl inorm layers ++ gruBlock repl layers ++ [.emit]
 
 /-! ## full shapes: the glue of the unrolled networks -/
 
